@@ -49,20 +49,42 @@ Proof.
   clear Hx Hl. induction Hr as [|y r Hy _ IH]; [constructor|]. cbn [map]. constructor; [|exact IH].
   cbn [mem_N]. rewrite Hy. reflexivity.
 Qed.
-Theorem paren_args_join l : Forall arg_ok l -> paren_args (join_cs l) = l.
+Theorem paren_args_join0 l : args_ok l -> paren_args (join_cs l) = l.
 Proof.
-  intros Hl. unfold paren_args. rewrite join_cs_sep.
+  intros [Hl Hne]. unfold paren_args. rewrite join_cs_sep.
   destruct l as [|x r].
   - reflexivity.
   - assert (Hc : Forall (fun a => mem_N COMMA a = false) (x :: r)).
-    { eapply Forall_impl; [|exact Hl]. intros a [_ [Ha _]]. exact Ha. }
+    { eapply Forall_impl; [|exact Hl]. intros a [Ha _]. exact Ha. }
     assert (Hs : Forall (fun a => strip a = a) (x :: r)).
-    { eapply Forall_impl; [|exact Hl]. intros a [_ [_ Ha]]. exact Ha. }
+    { eapply Forall_impl; [|exact Hl]. intros a [_ Ha]. exact Ha. }
     rewrite split_join; [|cbn [spaced]; congruence|apply spaced_nocomma; exact Hc].
     cbn [spaced map]. inversion Hs as [|? ? Hx Hr]; subst. rewrite Hx, map_strip_blank by exact Hr.
     destruct r as [|y r]; [|reflexivity].
-    inversion Hl as [|? ? [Hne _] _]; subst. destruct x; [congruence|reflexivity].
+    destruct x; [exfalso; apply Hne; reflexivity|reflexivity].
 Qed.
+Lemma arg_ok_args_ok l : Forall arg_ok l -> args_ok l.
+Proof.
+  intros Hl. split.
+  - eapply Forall_impl; [|exact Hl]. intros a [_ Ha]. exact Ha.
+  - intros E. subst l. inversion Hl as [|? ? [Hne _] _]; subst. congruence.
+Qed.
+Theorem paren_args_join l : Forall arg_ok l -> paren_args (join_cs l) = l.
+Proof. intros Hl. apply paren_args_join0. apply arg_ok_args_ok. exact Hl. Qed.
+(** the one exception, exactly: a sole blank argument (and no argument) are both written `()` and read as no argument *)
+Lemma paren_args_sole_blank : paren_args (join_cs [[]]) = [] /\ paren_args (join_cs []) = [].
+Proof. split; reflexivity. Qed.
+(** every generated configuration of today's shape computes [paren_args] *)
+Theorem paren_args_with_is_model c : args_cfg_ok c = true -> forall s, paren_args_with c s = paren_args s.
+Proof.
+  destruct c as [sep st f cl]. unfold args_cfg_ok. cbn [ac_sep ac_strip ac_filter ac_clear_sole].
+  intros E s. apply andb_true_iff in E. destruct E as [E Ec]. apply andb_true_iff in E. destruct E as [E Ef].
+  apply andb_true_iff in E. destruct E as [Es Est]. apply N.eqb_eq in Es. subst sep st cl.
+  destruct f; try discriminate. reflexivity.
+Qed.
+(** ... hence reads back what the writer wrote, blank arguments included *)
+Corollary paren_args_with_roundtrip c : args_cfg_ok c = true -> forall l, args_ok l -> paren_args_with c (join_cs l) = l.
+Proof. intros Hc l Hl. rewrite paren_args_with_is_model by exact Hc. apply paren_args_join0. exact Hl. Qed.
 
 Lemma add_bases_nodup l : forall bs, NoDup (bs ++ l) -> add_bases bs l = bs ++ l.
 Proof.
@@ -164,7 +186,7 @@ Proof.
     change (head_loop (pn p) None al bs hs (TStr n :: TParen (join_cs args) :: concat (map helper_toks fs) ++ tail)
             = head_loop (pn (fst (G fs r None (hs ++ fl p ++ [h])))) None al bs (snd (G fs r None (hs ++ fl p ++ [h]))) tail).
     rewrite loop_name by exact Hp.
-    destruct (known n) eqn:Hk; cbn [head_loop]; rewrite paren_args_join by exact Ha.
+    destruct (known n) eqn:Hk; cbn [head_loop]; rewrite paren_args_join0 by exact Ha.
     + rewrite Hb, Hv, Hh. rewrite orb_false_r. rewrite <- app_assoc.
       apply (IH None (hs ++ fl p ++ [h]) al bs tail). exact I.
     + rewrite Hal. cbn iota. rewrite orb_false_r. rewrite Hh. rewrite <- app_assoc.
